@@ -572,6 +572,8 @@ func (m *Mux) serveHTTP(w http.ResponseWriter, r *http.Request) error {
 			// it does not append its header and trailer to the error body.
 			zc = nil
 			w.Header().Set("Content-Encoding", "identity") // try to avoid gzip
+			// Header metadata set before the failure is still to be sent.
+			setOutgoingHeader(w.Header(), stream.header)
 		} else if zc != nil {
 			// The compressed reply is under way: the error is part of it.
 			ew = compressedWriter{ResponseWriter: w, z: resp}
